@@ -314,3 +314,120 @@ Theorem descriptor_parent_prefix_refuted : exists s root parent_chains child_cha
   prefix_b (collector_path s root parent_chains) (collector_path s root child_chains) = false.
 Proof. exact parent_prefix_refuted_exists. Qed.
 Print Assumptions descriptor_parent_prefix_refuted.
+
+(* ---- reconstruction composed across the layers (SpecCompose.v, ProofsCompose*.v) ----
+   [admissible descs ids]: the completion order ids names known defers, each at most once, every one
+   after its parent; [order_of] are their descriptors; [client_result] is the client: the initial
+   data, then for every completed defer in that order each of its items merged at path ++ subPath;
+   [covers]: every defer of the plan completes. *)
+From Gv Require Import C10.SpecCompose C10.ProofsCompose C10.ProofsComposeExec C10.ProofsComposeRest C10.ProofsComposeDead C10.ProofsComposeFinal.
+
+(* Every prefix of a run: for every plan satisfying defer_plan_wf, ALL data and every admissible
+   order, the fold of the merges never fails and yields the response of exactly the completed
+   defers (up to the order of object members). *)
+Theorem reconstruct_order : forall descs root tree data ids,
+  defer_plan_wf descs root tree = true -> admissible descs ids = true ->
+  exists v, client_result descs root data (order_of descs ids) = Some v /\
+            jeq v (proj (keepX ids) root data []).
+Proof. exact reconstruct_order_wf. Qed.
+Print Assumptions reconstruct_order.
+
+(* ... with the member order the merge produces: in every object the fields without a mark, then
+   the fields of each completed defer in completion order ([projo]) -- an equality of trees *)
+Theorem reconstruct_order_exact : forall descs root tree data ids,
+  defer_plan_wf descs root tree = true -> admissible descs ids = true ->
+  client_result descs root data (order_of descs ids) = Some (projo ids root data []).
+Proof. exact reconstruct_order_exact_wf. Qed.
+Print Assumptions reconstruct_order_exact.
+
+(* The composition: for every plan satisfying defer_plan_wf, all data and EVERY admissible order in
+   which all defers complete, the fold of the merges over the frames in that order, starting from
+   the initial frame's data, is the response that keeps every field; on data that needs no
+   completion (strict_clean, the hypothesis of reconstruct_total) that is the C02 completion of the
+   erased plan, reported without error. *)
+Theorem reconstruct_all : forall descs root tree data ids,
+  defer_plan_wf descs root tree = true ->
+  admissible descs ids = true -> covers descs ids = true ->
+  exists v, client_result descs root data (order_of descs ids) = Some v /\
+            jeq v (proj keep_all root data []) /\
+            (strict_clean root data [] = true ->
+             exists r, complete_root (fun _ _ => false) (erase root) data = (Some r, []) /\ jeq v r).
+Proof. exact reconstruct_all_wf. Qed.
+Print Assumptions reconstruct_all.
+
+(* The reconstructed data does not depend on the completion order. *)
+Theorem reconstruct_order_independent : forall descs root tree data ids1 ids2,
+  defer_plan_wf descs root tree = true ->
+  admissible descs ids1 = true -> admissible descs ids2 = true ->
+  (forall x, In x ids1 <-> In x ids2) ->
+  exists v1 v2, client_result descs root data (order_of descs ids1) = Some v1 /\
+                client_result descs root data (order_of descs ids2) = Some v2 /\ jeq v1 v2.
+Proof. exact order_independent_wf. Qed.
+Print Assumptions reconstruct_order_independent.
+
+(* The orders of the executor: the ids completed by the frames of any accepted trace, in frame
+   order, form an admissible order. *)
+Theorem exec_order_admissible : forall descs root tree data tr frames,
+  defer_plan_wf descs root tree = true ->
+  exec descs root tree data tr = Some frames ->
+  admissible descs (completed_ids frames) = true.
+Proof. exact exec_order_admissible_lemma. Qed.
+Print Assumptions exec_order_admissible.
+
+(* A defer whose anchor is dead (liveChildDescriptors never announces it) has nothing to deliver. *)
+Theorem dead_anchor_delivers_nothing : forall descs root tree data d,
+  defer_plan_wf descs root tree = true -> In d descs ->
+  anchor_alive data (dd_path d) = false -> c_items descs d root data = [].
+Proof. exact dead_anchor_no_items. Qed.
+Print Assumptions dead_anchor_delivers_nothing.
+
+(* Composition with the executor: for every accepted trace, when every defer that never completes
+   has nothing to deliver on this data ([undelivered_empty], a boolean), the client's fold over the
+   completion order of the trace is the non-deferred response.  (The payloads are those of the
+   clean renderer c_items; the frames of render_batch are tied to it by the correspondence check
+   corr:C10/clean, not by a theorem.) *)
+Theorem reconstruct_exec_partial : forall descs root tree data tr frames,
+  defer_plan_wf descs root tree = true ->
+  exec descs root tree data tr = Some frames ->
+  undelivered_empty descs root data (completed_ids frames) = true ->
+  exists v, client_result descs root data (order_of descs (completed_ids frames)) = Some v /\
+            jeq v (proj keep_all root data []) /\
+            (strict_clean root data [] = true ->
+             exists r, complete_root (fun _ _ => false) (erase root) data = (Some r, []) /\ jeq v r).
+Proof. exact reconstruct_exec_lemma. Qed.
+Print Assumptions reconstruct_exec_partial.
+
+(* Without that hypothesis the executor statement is false of the model:
+   { maybe {id} ... @defer { maybe {name} ... @defer { first {id} } } } with maybe = null -- the outer
+   defer is anchored at [maybe] (dead), its Sequence is pruned, the inner defer (anchored at the
+   root, alive, with data) never completes: the stream is {"data":{"maybe":null},"hasNext":false}
+   and "first" is lost (recorded finding defer-merged-mount-wrong-anchor, half (b)). *)
+Theorem reconstruct_exec_refuted : exists descs root tree data tr frames v r,
+  defer_plan_wf descs root tree = true /\ strict_clean root data [] = true /\
+  exec descs root tree data tr = Some frames /\
+  client_result descs root data (order_of descs (completed_ids frames)) = Some v /\
+  complete_root (fun _ _ => false) (erase root) data = (Some r, []) /\
+  undelivered_empty descs root data (completed_ids frames) = false /\
+  ~ jeq v r.
+Proof. exact reconstruct_exec_refuted_lemma. Qed.
+Print Assumptions reconstruct_exec_refuted.
+
+(* non-vacuity: the example plan (defer 2 nested in defer 1, defer 3 a sibling of 1); the orders
+   1,2,3 and 3,1,2 (the latter is the completion order of ex_trace) are admissible and complete and
+   give the same members in different order; 2,1,3 is not admissible and its fold fails *)
+Example reconstruct_all_nonvacuous :
+  defer_plan_wf ex_descs ex_root ex_tree = true /\ strict_clean ex_root ex_data [] = true /\
+  admissible ex_descs [1; 2; 3] = true /\ covers ex_descs [1; 2; 3] = true /\
+  admissible ex_descs [3; 1; 2] = true /\ covers ex_descs [3; 1; 2] = true /\
+  admissible ex_descs [2; 1; 3] = false /\
+  client_result ex_descs ex_root ex_data (order_of ex_descs [1; 2; 3]) =
+    Some (JObj [([97], JStr [120]); ([98], JObj [([99], JStr [121]); ([100], JStr [122])]); ([101], JNull)]) /\
+  client_result ex_descs ex_root ex_data (order_of ex_descs [3; 1; 2]) =
+    Some (JObj [([97], JStr [120]); ([101], JNull); ([98], JObj [([99], JStr [121]); ([100], JStr [122])])]) /\
+  client_result ex_descs ex_root ex_data (order_of ex_descs [2; 1; 3]) = None /\
+  match exec ex_descs ex_root ex_tree ex_data ex_trace with
+  | Some frames => completed_ids frames = [3; 1; 2] /\
+                   undelivered_empty ex_descs ex_root ex_data (completed_ids frames) = true
+  | None => False
+  end.
+Proof. vm_compute. repeat split; reflexivity. Qed.
